@@ -3,6 +3,7 @@ import DimodProofs.SpinAux
 import DimodProofs.BKInv
 import DimodProofs.BKLabels
 import DimodProofs.BKQue
+import DimodProofs.ReduceGiven
 
 /-! # C15 — higher-order reduction is exact on consistent assignments; the penalty is never negative
 
@@ -169,12 +170,12 @@ theorem reduce_loop_terminates (poly : List (LTerm × Rat)) (vars : List Label)
 
 /-- hence **`make_quadratic` and `make_quadratic_cqm` never raise**: for every input polynomial, on every
     complete run of the loop (any pops the code can make, until `idx` is empty), both return a model -/
-theorem make_quadratic_never_raises (vt : VT) (strength : Rat) (raw : List (List Label × Rat)) (choices : List Pair)
-    (ho : OracleOK (BK.init (normPoly vt raw) (polyVars (normPoly vt raw))) choices)
-    (hdone : ∀ s, bkReduce (normPoly vt raw) (polyVars (normPoly vt raw)) choices = some s → s.idx = []) :
-    (∃ r, makeQuadratic vt strength raw choices = some r) ∧ (∃ r, makeQuadraticCqm vt raw choices = some r) := by
-  obtain ⟨s, hs, _, _, _, _, hdeg⟩ := reduce_loop_never_raises (normPoly vt raw) (polyVars (normPoly vt raw)) choices
-    (normPoly_ok vt raw) (polyVars_mem _) ho
+theorem make_quadratic_never_raises (reserved : List Label) (vt : VT) (strength : Rat) (raw : List (List Label × Rat)) (choices : List Pair)
+    (ho : OracleOK (BK.init (normPoly vt raw) (polyVars (normPoly vt raw) ++ reserved)) choices)
+    (hdone : ∀ s, bkReduce (normPoly vt raw) (polyVars (normPoly vt raw) ++ reserved) choices = some s → s.idx = []) :
+    (∃ r, makeQuadratic reserved vt strength raw choices = some r) ∧ (∃ r, makeQuadraticCqm reserved vt raw choices = some r) := by
+  obtain ⟨s, hs, _, _, _, _, hdeg⟩ := reduce_loop_never_raises (normPoly vt raw) (polyVars (normPoly vt raw) ++ reserved) choices
+    (normPoly_ok vt raw) (fun tb htb w hw => List.mem_append_left _ (polyVars_mem _ tb htb w hw)) ho
   have hidx := hdone s hs
   obtain ⟨obj, hobj⟩ := (objectiveBag_some_iff s.reduced).2 hdeg
   constructor
@@ -186,12 +187,12 @@ theorem make_quadratic_never_raises (vt : VT) (strength : Rat) (raw : List (List
     exact ⟨_, rfl⟩
 
 /-- and such a complete run exists for every input -/
-theorem make_quadratic_total (vt : VT) (strength : Rat) (raw : List (List Label × Rat)) :
-    ∃ choices, OracleOK (BK.init (normPoly vt raw) (polyVars (normPoly vt raw))) choices
-      ∧ (∃ r, makeQuadratic vt strength raw choices = some r) ∧ (∃ r, makeQuadraticCqm vt raw choices = some r) := by
-  obtain ⟨choices, s, ho, hs, hidx⟩ := reduce_loop_terminates (normPoly vt raw) (polyVars (normPoly vt raw))
-    (normPoly_ok vt raw) (polyVars_mem _)
-  refine ⟨choices, ho, make_quadratic_never_raises vt strength raw choices ho ?_⟩
+theorem make_quadratic_total (reserved : List Label) (vt : VT) (strength : Rat) (raw : List (List Label × Rat)) :
+    ∃ choices, OracleOK (BK.init (normPoly vt raw) (polyVars (normPoly vt raw) ++ reserved)) choices
+      ∧ (∃ r, makeQuadratic reserved vt strength raw choices = some r) ∧ (∃ r, makeQuadraticCqm reserved vt raw choices = some r) := by
+  obtain ⟨choices, s, ho, hs, hidx⟩ := reduce_loop_terminates (normPoly vt raw) (polyVars (normPoly vt raw) ++ reserved)
+    (normPoly_ok vt raw) (fun tb htb w hw => List.mem_append_left _ (polyVars_mem _ tb htb w hw))
+  refine ⟨choices, ho, make_quadratic_never_raises reserved vt strength raw choices ho ?_⟩
   intro s' hs'
   rw [hs] at hs'; cases hs'; exact hidx
 
@@ -207,9 +208,9 @@ theorem spin_product_table : GateSpec spinProduct [-1, 1] 3 1 (fun v => v.getD 2
 
 /-- **assembly, BINARY**: whenever `make_quadratic` succeeds, the BQM's energy is the reduced polynomial's
     energy plus `strength ×` the sum of the AND penalties of the product constraints -/
-theorem make_quadratic_energy (strength : Rat) (raw : List (List Label × Rat)) (choices : List Pair)
+theorem make_quadratic_energy (reserved : List Label) (strength : Rat) (raw : List (List Label × Rat)) (choices : List Pair)
     (bag : List (PTerm Label)) (st : BK) (auxs : List Label)
-    (h : makeQuadratic .binary strength raw choices = some (bag, st, auxs)) (x : Label → Rat) :
+    (h : makeQuadratic reserved .binary strength raw choices = some (bag, st, auxs)) (x : Label → Rat) :
     evalBag x bag = polyEnergy x st.reduced + strength * penSumB x st.constraints := by
   unfold makeQuadratic at h
   split at h
@@ -227,9 +228,9 @@ theorem make_quadratic_energy (strength : Rat) (raw : List (List Label × Rat)) 
         grind
 
 /-- **assembly, SPIN**: the same with the `_spin_product` penalties and the auxiliaries the code created -/
-theorem make_quadratic_energy_spin (strength : Rat) (raw : List (List Label × Rat)) (choices : List Pair)
+theorem make_quadratic_energy_spin (reserved : List Label) (strength : Rat) (raw : List (List Label × Rat)) (choices : List Pair)
     (bag : List (PTerm Label)) (st : BK) (auxs : List Label)
-    (h : makeQuadratic .spin strength raw choices = some (bag, st, auxs)) (x : Label → Rat) :
+    (h : makeQuadratic reserved .spin strength raw choices = some (bag, st, auxs)) (x : Label → Rat) :
     evalBag x bag = polyEnergy x st.reduced + strength * penSumS x st.constraints auxs ∧ auxs.length = st.constraints.length := by
   unfold makeQuadratic at h
   split at h
@@ -302,12 +303,12 @@ theorem make_quadratic_penalty_nonneg (x : Label → Rat) (hx : ∀ l, x l ∈ [
     assignment in which each product variable equals its product the BQM has the polynomial's energy
     (`normPoly` = `BinaryPolynomial.__init__`); at every other 0/1 assignment it lies at least `strength`
     above the reduced polynomial -/
-theorem make_quadratic_exact (strength : Rat) (raw : List (List Label × Rat)) (choices : List Pair)
+theorem make_quadratic_exact (reserved : List Label) (strength : Rat) (raw : List (List Label × Rat)) (choices : List Pair)
     (bag : List (PTerm Label)) (st : BK) (auxs : List Label)
-    (h : makeQuadratic .binary strength raw choices = some (bag, st, auxs)) (hch : ∀ c ∈ choices, c.1 ≠ c.2)
+    (h : makeQuadratic reserved .binary strength raw choices = some (bag, st, auxs)) (hch : ∀ c ∈ choices, c.1 ≠ c.2)
     (x : Label → Rat) (hx : ∀ l, x l ∈ [(0 : Rat), 1]) (hc : ∀ c ∈ st.constraints, x c.2 = x c.1.1 * x c.1.2) :
     evalBag x bag = polyEnergy x (normPoly .binary raw) := by
-  have he := make_quadratic_energy strength raw choices bag st auxs h x
+  have he := make_quadratic_energy reserved strength raw choices bag st auxs h x
   unfold makeQuadratic at h
   split at h
   · simp at h
@@ -324,8 +325,8 @@ theorem make_quadratic_exact (strength : Rat) (raw : List (List Label × Rat)) (
           cases hi : s.idx with
           | nil => rfl
           | cons a r => rw [hi] at hidx; simp at hidx
-        have := bookkeeping_energy_consistent (normPoly .binary raw) (polyVars (normPoly .binary raw)) choices s
-          (normPoly_ok .binary raw) (polyVars_mem _) hch hs hdone x hc
+        have := bookkeeping_energy_consistent (normPoly .binary raw) (polyVars (normPoly .binary raw) ++ reserved) choices s
+          (normPoly_ok .binary raw) (fun tb htb w hw => List.mem_append_left _ (polyVars_mem _ tb htb w hw)) hch hs hdone x hc
         rw [he, this.1, (make_quadratic_penalty_nonneg x hx s.constraints).2.1 hc]
         grind
 
@@ -355,12 +356,123 @@ theorem make_quadratic_aux_fresh (s : Rat) (vars : List Label) (cs : List (Pair 
     an assignment differing only on the auxiliaries the code created at which the BQM has exactly the
     polynomial's energy (and by `make_quadratic_energy_spin` + `make_quadratic_penalty_nonneg_spin` no
     assignment of the auxiliaries gives less than the reduced polynomial) -/
-theorem make_quadratic_exact_spin (strength : Rat) (raw : List (List Label × Rat)) (choices : List Pair)
+theorem make_quadratic_exact_spin (reserved : List Label) (strength : Rat) (raw : List (List Label × Rat)) (choices : List Pair)
     (bag : List (PTerm Label)) (st : BK) (auxs : List Label)
-    (h : makeQuadratic .spin strength raw choices = some (bag, st, auxs)) (hch : ∀ c ∈ choices, c.1 ≠ c.2)
+    (h : makeQuadratic reserved .spin strength raw choices = some (bag, st, auxs)) (hch : ∀ c ∈ choices, c.1 ≠ c.2)
     (x : Label → Rat) (hx : Spin01 x) (hc : ∀ c ∈ st.constraints, x c.2 = x c.1.1 * x c.1.2) :
-    ∃ x', Spin01 x' ∧ (∀ l, l ∉ auxs → x' l = x l) ∧ evalBag x' bag = polyEnergy x (normPoly .spin raw) :=
-  makeQuadratic_spin_exact strength raw choices bag st auxs h hch x hx hc
+    ∃ x', Spin01 x' ∧ (∀ l, l ∉ auxs → x' l = x l) ∧ evalBag x' bag = polyEnergy x (normPoly .spin raw)
+      ∧ (∀ a ∈ auxs, a ∉ reserved) :=
+  makeQuadratic_spin_exact reserved strength raw choices bag st auxs h hch x hx hc
+
+/-! ## `make_quadratic(poly, strength, vartype, bqm=…)` / `make_quadratic_cqm(…, cqm=…)` onto a given model -/
+
+/-- **the introduced names are fresh, also with respect to the given model**: the product variables are
+    pairwise distinct and none of them is a variable of the polynomial or one of the `reserved` labels (the
+    variables of the model the calls are added to); for SPIN the auxiliaries are pairwise distinct and differ
+    from all of these and from the product variables -/
+theorem make_quadratic_names_fresh (reserved : List Label) (vt : VT) (strength : Rat) (raw : List (List Label × Rat))
+    (choices : List Pair) (bag : List (PTerm Label)) (st : BK) (auxs : List Label)
+    (h : makeQuadratic reserved vt strength raw choices = some (bag, st, auxs)) :
+    (st.constraints.map (·.2)).Nodup
+    ∧ (∀ c ∈ st.constraints, c.2 ∉ polyVars (normPoly vt raw) ++ reserved)
+    ∧ auxs.Nodup
+    ∧ (∀ a ∈ auxs, a ∉ polyVars (normPoly vt raw) ++ reserved ++ st.constraints.map (·.2)) := by
+  unfold makeQuadratic at h
+  split at h
+  · simp at h
+  · rename_i s hs
+    split at h
+    · simp at h
+    · split at h
+      · simp at h
+      · simp only [Option.some.injEq, Prod.mk.injEq] at h
+        obtain ⟨_, hst, ha⟩ := h
+        subst hst
+        have hp := bkReduce_products_fresh _ _ _ s hs
+        refine ⟨hp.1, hp.2, ?_, ?_⟩
+        · rw [← ha]
+          cases vt with
+          | spin => exact (penaltyBags_aux_fresh strength _ s.constraints).1
+          | binary =>
+            have : ∀ (vars : List Label) (cs : List (Pair × Label)), (penaltyBags .binary strength vars cs).2 = [] := by
+              intro vars cs
+              induction cs generalizing vars with
+              | nil => rfl
+              | cons c r ih => simp only [penaltyBags]; exact ih vars
+            rw [this]; exact List.nodup_nil
+        · rw [← ha]
+          cases vt with
+          | spin => exact (penaltyBags_aux_fresh strength _ s.constraints).2
+          | binary =>
+            have : ∀ (vars : List Label) (cs : List (Pair × Label)), (penaltyBags .binary strength vars cs).2 = [] := by
+              intro vars cs
+              induction cs generalizing vars with
+              | nil => rfl
+              | cons c r ih => simp only [penaltyBags]; exact ih vars
+            rw [this]; intro a ha'; simp at ha'
+
+/-- the same for `make_quadratic_cqm(…, cqm=given)` -/
+theorem make_quadratic_cqm_names_fresh (reserved : List Label) (vt : VT) (raw : List (List Label × Rat)) (choices : List Pair)
+    (s : BK) (h : bkReduce (normPoly vt raw) (polyVars (normPoly vt raw) ++ reserved) choices = some s) :
+    (s.constraints.map (·.2)).Nodup ∧ ∀ c ∈ s.constraints, c.2 ∉ polyVars (normPoly vt raw) ++ reserved :=
+  bkReduce_products_fresh _ _ _ s h
+
+/-- `change_vartype` (closed form) keeps the energy function: the rebuilt model at a sample of the new
+    vartype = the given model at the corresponding sample of its own vartype -/
+theorem change_vartype_energy (b : Bq Label) (vt : VT) (x : Label → Rat) (hx : Dom vt x) :
+    (changeVartype b vt).vt = vt
+    ∧ (changeVartype b vt).energy x = (if b.vt = vt then b.energy x else b.energy (convSample vt x)) :=
+  ⟨changeVartype_vt b vt, changeVartype_energy b vt x hx⟩
+
+/-- **`make_quadratic` onto a given model** (`_init_quadratic_model`): the result has the requested vartype
+    (the given model's when `vartype` is omitted; `ValueError` = `none` when neither is given), and at every
+    sample of that vartype its energy is the given model's energy — converted, when the vartypes differ —
+    plus the value of the penalty and objective calls of `make_quadratic` -/
+theorem make_quadratic_onto_given_model (g : Option (Bq Label)) (vtArg : Option VT) (strength : Rat) (raw : List (List Label × Rat))
+    (choices : List Pair) (res : Bq Label) (vt : VT) (bag : List (PTerm Label)) (st : BK) (auxs : List Label)
+    (h : makeQuadraticOnto g vtArg strength raw choices = some (res, vt, bag, st, auxs)) :
+    res.vt = vt ∧ (∀ v, vtArg = some v → vt = v) ∧ (vtArg = none → ∃ g', g = some g' ∧ g'.vt = vt)
+    ∧ (∃ b, initQuadraticModel g vtArg = some (b, vt) ∧ makeQuadratic (b.lin.map (·.1)) vt strength raw choices = some (bag, st, auxs))
+    ∧ ∀ x, Dom vt x → res.energy x = givenEnergy g vt x + evalBag x bag :=
+  makeQuadraticOnto_spec g vtArg strength raw choices res vt bag st auxs h
+
+/-- hence, **BINARY result**: at every 0/1 assignment in which each product variable equals its product,
+    the result has the polynomial's energy plus the (converted) given model's energy -/
+theorem make_quadratic_onto_given_exact (g : Option (Bq Label)) (vtArg : Option VT) (strength : Rat) (raw : List (List Label × Rat))
+    (choices : List Pair) (res : Bq Label) (bag : List (PTerm Label)) (st : BK) (auxs : List Label)
+    (h : makeQuadraticOnto g vtArg strength raw choices = some (res, .binary, bag, st, auxs)) (hch : ∀ c ∈ choices, c.1 ≠ c.2)
+    (x : Label → Rat) (hx : ∀ l, x l ∈ [(0 : Rat), 1]) (hc : ∀ c ∈ st.constraints, x c.2 = x c.1.1 * x c.1.2) :
+    res.vt = .binary ∧ res.energy x = givenEnergy g .binary x + polyEnergy x (normPoly .binary raw) := by
+  obtain ⟨h1, _, _, ⟨b, _, hmq⟩, h5⟩ := makeQuadraticOnto_spec g vtArg strength raw choices res .binary bag st auxs h
+  refine ⟨h1, ?_⟩
+  have hdom : Dom .binary x := by
+    intro v
+    have := hx v
+    simp only [List.mem_cons, List.not_mem_nil, or_false] at this
+    rcases this with h0 | h0 <;> rw [h0] <;> grind
+  rw [h5 x hdom, make_quadratic_exact _ strength raw choices bag st auxs hmq hch x hx hc]
+
+/-- **SPIN result**: for every ±1 assignment in which each product variable equals its product there is an
+    assignment differing only on the auxiliaries `make_quadratic` created — which are not variables of the
+    model the calls were added to — at which the result has the polynomial's energy plus the (converted)
+    given model's energy -/
+theorem make_quadratic_onto_given_exact_spin (g : Option (Bq Label)) (vtArg : Option VT) (strength : Rat) (raw : List (List Label × Rat))
+    (choices : List Pair) (res : Bq Label) (bag : List (PTerm Label)) (st : BK) (auxs : List Label)
+    (h : makeQuadraticOnto g vtArg strength raw choices = some (res, .spin, bag, st, auxs)) (hch : ∀ c ∈ choices, c.1 ≠ c.2)
+    (x : Label → Rat) (hx : Spin01 x) (hc : ∀ c ∈ st.constraints, x c.2 = x c.1.1 * x c.1.2) :
+    res.vt = .spin ∧ ∃ b, initQuadraticModel g vtArg = some (b, .spin) ∧ ∃ x', Spin01 x' ∧ (∀ l, l ∉ auxs → x' l = x l)
+      ∧ (∀ a ∈ auxs, a ∉ b.lin.map (·.1))
+      ∧ res.energy x' = givenEnergy g .spin x' + polyEnergy x (normPoly .spin raw) := by
+  obtain ⟨h1, _, _, ⟨b, hb, hmq⟩, h5⟩ := makeQuadraticOnto_spec g vtArg strength raw choices res .spin bag st auxs h
+  refine ⟨h1, b, hb, ?_⟩
+  obtain ⟨x', hx', hoff, he, hres⟩ := make_quadratic_exact_spin _ strength raw choices bag st auxs hmq hch x hx hc
+  refine ⟨x', hx', hoff, hres, ?_⟩
+  have hdom : Dom .spin x' := by
+    intro v
+    have := hx' v
+    simp only [List.mem_cons, List.not_mem_nil, or_false] at this
+    rcases this with h0 | h0 <;> rw [h0] <;> grind
+  rw [h5 x' hdom, he]
 
 /-! ## `make_quadratic_cqm` -/
 
@@ -371,9 +483,9 @@ theorem make_quadratic_cqm_constraint (c : Pair × Label) (x : Label → Rat) :
 
 /-- **`make_quadratic_cqm`**: whenever it succeeds, at every assignment satisfying all its product constraints
     (`== 0`) the objective has the polynomial's energy, and the objective has degree ≤ 2 by construction -/
-theorem make_quadratic_cqm_exact (vt : VT) (raw : List (List Label × Rat)) (choices : List Pair)
+theorem make_quadratic_cqm_exact (reserved : List Label) (vt : VT) (raw : List (List Label × Rat)) (choices : List Pair)
     (obj : List (PTerm Label)) (cons : List (String × List (PTerm Label)))
-    (h : makeQuadraticCqm vt raw choices = some (obj, cons)) (hch : ∀ c ∈ choices, c.1 ≠ c.2)
+    (h : makeQuadraticCqm reserved vt raw choices = some (obj, cons)) (hch : ∀ c ∈ choices, c.1 ≠ c.2)
     (x : Label → Rat) (hfeas : ∀ c ∈ cons, evalBag x c.2 = 0) :
     evalBag x obj = polyEnergy x (normPoly vt raw) := by
   unfold makeQuadraticCqm at h
@@ -398,8 +510,8 @@ theorem make_quadratic_cqm_exact (vt : VT) (raw : List (List Label × Rat)) (cho
           have := hfeas (prodConstraint c) (by rw [← hcons]; exact List.mem_map.2 ⟨c, hc, rfl⟩)
           rw [make_quadratic_cqm_constraint] at this
           grind
-        have := bookkeeping_energy_consistent (normPoly vt raw) (polyVars (normPoly vt raw)) choices s
-          (normPoly_ok vt raw) (polyVars_mem _) hch hs hdone x hc
+        have := bookkeeping_energy_consistent (normPoly vt raw) (polyVars (normPoly vt raw) ++ reserved) choices s
+          (normPoly_ok vt raw) (fun tb htb w hw => List.mem_append_left _ (polyVars_mem _ tb htb w hw)) hch hs hdone x hc
         rw [objectiveBag_eval x _ _ hobj, this.1]
 
 /-! ## `HigherOrderComposite` -/
@@ -431,6 +543,16 @@ example : (bkReduce (normPoly .binary [([.int 0, .int 1, .int 2], -2), ([.int 0]
     for `-2·x0·x1·x2·x3 + x0·x1·x2` every pair has count ≥ 1, `{0,1}`, `{0,2}`, `{1,2}` have count 2 = `max(que)` -/
 example : (BK.init (normPoly .binary [([.int 0, .int 1, .int 2, .int 3], -2), ([.int 0, .int 1, .int 2], 1)])
     [.int 0, .int 1, .int 2, .int 3]).que.map (fun e => (e.1, e.2.length)) = [(2, 3), (1, 3)] := by decide +kernel
+
+/-- `make_quadratic(poly, 2, BINARY, bqm=<SPIN model s0>)`: the result is BINARY, the given `s0` became `2·b0 − 1` -/
+example : (makeQuadraticOnto (some { vt := .spin, lin := [(.int 0, 1)], quad := [], off := 0 }) (some .binary) 2
+    [([.int 0, .int 1, .int 2], -2)] [(.int 0, .int 1)]).map (fun r => (r.1.vt, r.2.1, r.1.off, r.1.lin.head?)) = some (.binary, .binary, -1, some (.int 0, 2)) := by
+  decide +kernel
+
+/-- a product name that is already a variable of the given model is avoided -/
+example : (makeQuadraticOnto (some { vt := .binary, lin := [(.str "0*1", 1)], quad := [], off := 0 }) none 2
+    [([.int 0, .int 1, .int 2], -2)] [(.int 0, .int 1)]).map (fun r => r.2.2.2.1.constraints.map (·.2)) = some [.str "_0*1"] := by
+  decide +kernel
 
 example : newProduct [.str "0*1", .int 0, .int 1] (.int 0) (.int 1) = .str "_0*1" := by decide +kernel
 
